@@ -41,6 +41,7 @@ func checkC18(p *Program, r *Report) {
 	r.Explanation = "A sufficient condition for thread-safety decided on SSA over everything reachable (VTA call graph; CHA in the thorough tier) from the codec and compressor entry points: no store or map update into a package-level variable or into an object of a type held (transitively) by a codec instance or a package variable, unless that object was allocated by the storing function; package-level variables are never handed to a mutating library method; sync.Pool values are returned at most once per path; package-level codec variables are assigned only by initialisers. If it holds, concurrent calls touch only per-call memory. Schedules themselves are not explored; third-party internals are trusted at the call boundary."
 	r.Trusted = []string{"go/ssa, VTA call graph", "allow-list of read-only library methods (checker/c18.go)", "third-party code does not keep references to its arguments"}
 	r.Assumptions = []string{"frames, segments, values and destination pointers passed as arguments are per-call objects owned by the caller (distinct frames / values per goroutine, as the property states)"}
+	poolHygiene(p, r, "pool-hygiene")
 	cg := p.CallGraphVTA()
 	if r.Tier == "thorough" {
 		cg = p.CallGraphCHA()
@@ -502,5 +503,180 @@ func c18InitOnly(p *Program, r *Report) {
 	}
 	if n == 0 {
 		r.OKf("init-only", "all package variables", token.NoPos, "no package-level variable of the codec packages is assigned outside init")
+	}
+}
+
+// poolHygiene: an object taken from a sync.Pool that carries content (it has a Reset or Truncate
+// method) is cleaned before its first use, or cleaned on every way back into the pool. Otherwise
+// what one call left in it (for instance a partial encoding after an error) leaks into the next.
+// Decided for every function of the module; the rule name is supplied by the caller.
+func poolHygiene(p *Program, r *Report, rule string) {
+	n := 0
+	for _, fn := range p.ModuleFuncs() {
+		for _, b := range fn.Blocks {
+			for _, ins := range b.Instrs {
+				get, ok := ins.(*ssa.Call)
+				if !ok {
+					continue
+				}
+				if f := get.Call.StaticCallee(); f == nil || f.String() != "(*sync.Pool).Get" {
+					continue
+				}
+				n++
+				key := fmt.Sprintf("%s Get#%d", fnKey(fn), n)
+				// the typed object(s)
+				var objs []ssa.Value
+				for _, ref := range *get.Referrers() {
+					switch x := ref.(type) {
+					case *ssa.TypeAssert:
+						if x.CommaOk {
+							for _, r2 := range *x.Referrers() {
+								if ex, ok := r2.(*ssa.Extract); ok && ex.Index == 0 {
+									objs = append(objs, ex)
+								}
+							}
+						} else {
+							objs = append(objs, x)
+						}
+					}
+				}
+				if len(objs) == 0 {
+					r.OKf(rule, key, get.Pos(), "pooled value is not used as a typed object")
+					continue
+				}
+				for _, v := range objs {
+					hasReset := false
+					if ms := p.SSA().MethodSets.MethodSet(v.Type()); ms != nil {
+						for _, name := range []string{"Reset", "Truncate"} {
+							for i := 0; i < ms.Len(); i++ {
+								if ms.At(i).Obj().Name() == name {
+									hasReset = true
+								}
+							}
+						}
+					}
+					if !hasReset {
+						r.OKf(rule, key, get.Pos(), "pooled %s carries no resettable content", types.TypeString(v.Type(), relQual))
+						continue
+					}
+					var resets, uses []ssa.Instruction
+					deferredPutNoReset := false
+					closureCleans := false
+					directPuts := 0
+					var visit func(val ssa.Value)
+					seen := map[ssa.Value]bool{}
+					visit = func(val ssa.Value) {
+						if seen[val] {
+							return
+						}
+						seen[val] = true
+						for _, ref := range *val.Referrers() {
+							switch x := ref.(type) {
+							case *ssa.DebugRef:
+							case *ssa.MakeInterface:
+								visit(x)
+							case *ssa.Defer:
+								if f := x.Call.StaticCallee(); f != nil && f.String() == "(*sync.Pool).Put" {
+									deferredPutNoReset = true
+								} else {
+									uses = append(uses, x)
+								}
+							case *ssa.MakeClosure:
+								// a deferred closure that resets and puts
+								if cf, ok := x.Fn.(*ssa.Function); ok {
+									rs, pt := false, false
+									for _, cb := range cf.Blocks {
+										for _, ci := range cb.Instrs {
+											if c, ok := ci.(*ssa.Call); ok {
+												if f := c.Call.StaticCallee(); f != nil {
+													if f.Name() == "Reset" || f.Name() == "Truncate" {
+														rs = true
+													}
+													if f.String() == "(*sync.Pool).Put" && rs {
+														pt = true
+													}
+												}
+											}
+										}
+									}
+									if rs && pt {
+										closureCleans = true
+									} else {
+										uses = append(uses, x)
+									}
+								}
+							case *ssa.Call:
+								f := x.Call.StaticCallee()
+								switch {
+								case f != nil && (f.Name() == "Reset" || f.Name() == "Truncate") && len(x.Call.Args) > 0 && x.Call.Args[0] == val:
+									resets = append(resets, x)
+								case f != nil && f.String() == "(*sync.Pool).Put":
+									directPuts++
+									uses = append(uses, x)
+								default:
+									uses = append(uses, x)
+								}
+							case ssa.Instruction:
+								uses = append(uses, x)
+							}
+						}
+					}
+					visit(v)
+					before := func(a, b ssa.Instruction) bool {
+						if a.Block() == b.Block() {
+							return instrIndex(a) < instrIndex(b)
+						}
+						return a.Block().Dominates(b.Block())
+					}
+					cleanAtGet := false
+					for _, rs := range resets {
+						all := true
+						for _, u := range uses {
+							if !before(rs, u) {
+								all = false
+							}
+						}
+						if all {
+							cleanAtGet = true
+						}
+					}
+					cleanAtPut := closureCleans && !deferredPutNoReset
+					if !cleanAtPut && !deferredPutNoReset && directPuts > 0 {
+						// every direct Put immediately follows a Reset in its block
+						ok := true
+						for _, u := range uses {
+							c, isCall := u.(*ssa.Call)
+							if !isCall {
+								continue
+							}
+							if f := c.Call.StaticCallee(); f == nil || f.String() != "(*sync.Pool).Put" {
+								continue
+							}
+							found := false
+							for _, rs := range resets {
+								if rs.Block() == c.Block() && instrIndex(rs) < instrIndex(c) {
+									found = true
+								}
+							}
+							if !found {
+								ok = false
+							}
+						}
+						cleanAtPut = ok
+					}
+					switch {
+					case cleanAtGet:
+						r.OKf(rule, key, get.Pos(), "the pooled object is reset before its first use")
+					case cleanAtPut:
+						r.OKf(rule, key, get.Pos(), "the pooled object is reset on every way back into the pool")
+					default:
+						r.Fail(rule, key, get.Pos(), "%s takes a %s from a sync.Pool and neither resets it before its first use nor on every path that puts it back (a deferred Put runs on the error exits too): what a failed call left in it is prepended to the next caller's data", fn.Name(), types.TypeString(v.Type(), relQual))
+					}
+				}
+			}
+		}
+	}
+	if n == 0 {
+		r.OKf(rule, "no-pool", token.NoPos, "the module takes nothing from a sync.Pool")
 	}
 }
